@@ -208,6 +208,26 @@ func vClientSession(payload []byte) []byte {
 		return vSessProblem(obs, "write-error")
 	}
 	obs = append(obs, fs[0].payload...)
+	// a message larger than the fragmenting writer's buffer: it leaves by write-through, masked in
+	// a pooled copy, while other sessions use the same pools
+	big := bytes.Repeat(payload, 40)
+	wt := &vRecW{}
+	cw := wsutil.NewWriterSize(wt, ws.StateClientSide, ws.OpBinary, 16)
+	cw.Write(big)
+	cw.Flush()
+	wfs, wok := vParse(wt.all)
+	var sentBig []byte
+	for _, f := range wfs {
+		sentBig = append(sentBig, f.payload...)
+	}
+	if !wok || len(sentBig) != len(big) {
+		return vSessProblem(obs, "write-through-error")
+	}
+	for i := range big {
+		if vConcrete(vIte(sentBig[i] == big[i], 1, 0)) != 1 {
+			return vSessProblem(obs, "write-through-bytes-differ")
+		}
+	}
 	// a message from the server with an interleaved ping that the client answers
 	wire := []byte{0x02, byte(len(payload))}
 	wire = append(wire, payload...)
